@@ -210,12 +210,24 @@ def run(ctx):
                     if p.end == "return" and not (p.ret[0] == "agg" and p.ret[2] == "None"):
                         ok = False
                         why = "an element pair failed but the arm returns %s" % show(p.ret)
-            # success value is the last element result (or the incoming set when no pair was unified)
-            if p.end == "return" and p.ret[0] == "agg" and p.ret[2] == "Some" and ucalls and kind == "SComplex":
+            # success value = the running set: the set returned for the last pair, or the incoming set when no
+            # pair has been unified yet.  Outside the property's universe (and ignored): complex terms without
+            # elements, and a `$_` in functor position (make_complex requires an atom there).
+            if p.end == "return" and p.ret[0] == "agg" and p.ret[2] == "Some":
                 pl = strip(dict(p.ret[3]).get("0"))
-                if pl != ("field", ucalls[-1]["result"], "Some.0"):
+                running = ("field", ucalls[-1]["result"], "Some.0") if ucalls else ssp
+                skip0 = any(e["k"] == "branch" and e["value"] is True and e["cond"][0] == "call" and e["cond"][1].endswith("::eq")
+                            and any(isinstance(a, tuple) and a[0] == "agg" and a[2] == "Anonymous" for a in e["cond"][2])
+                            and any(isinstance(a, tuple) and mentions(a, lambda t: t[0] == "call" and t[1].endswith("::index")
+                                                                     and t[2][1][0] == "const" and t[2][1][3] == 0)
+                                    for a in e["cond"][2]) for e in p.events)
+                iterated = any(e["k"] == "call" and e["callee"].endswith("::index") for e in p.events) or kind == "SLinkedList"
+                if kind == "SComplex" and (skip0 or not iterated):
+                    pass
+                elif pl != running:
                     ok = False
-                    why = "the arm returns %s, not the set returned for the last pair" % show(pl)
+                    why = "a successful path returns %s, not the running set (%s): bindings made for earlier elements are dropped" % (
+                        show(pl), show(running))
         if multi == 0:
             ok = False
             why = "no path with two element unifications was found (loop not recognised)"
